@@ -115,6 +115,15 @@ func (e *End) Read(p []byte) (int, error) {
 	}
 	e.hub.mu.Lock()
 	defer e.hub.mu.Unlock()
+	// A blocked reader announces itself once per call (not on every wake-up:
+	// the hub's condition variable is shared, and two blocked readers that
+	// re-announce themselves would keep waking each other).
+	waiting := false
+	defer func() {
+		if waiting {
+			e.in.readers--
+		}
+	}()
 	for {
 		if e.closed {
 			return 0, net.ErrClosed
@@ -140,10 +149,12 @@ func (e *End) Read(p []byte) (int, error) {
 		if !e.rdeadline.IsZero() && !time.Now().Before(e.rdeadline) {
 			return 0, timeoutError{}
 		}
-		e.in.readers++
-		e.hub.cond.Broadcast()
+		if !waiting {
+			waiting = true
+			e.in.readers++
+			e.hub.cond.Broadcast()
+		}
 		e.hub.cond.Wait()
-		e.in.readers--
 	}
 }
 
